@@ -121,6 +121,7 @@ def run(pid, tier, seed, replay=None):
              ("shapes", seed + 4, 60 if quick else 800, 6)]
     if pid == "C02":
         plans.append(("scale", seed + 6, 10 if quick else 200, 6))     # several hundred Items per document
+        plans.append(("huge", seed + 7, 4 if quick else 24, 6))        # fingerprinted huge exact-identity forests
     for mode, sd, count, maxi in plans:
         raw = os.path.join(OUT, "%s_xml_%s.ndjson" % (pid, mode))
         tok = raw + ".tok"
@@ -132,6 +133,9 @@ def run(pid, tier, seed, replay=None):
         with open(raw) as f:
             for i, l in enumerate(f):
                 e = json.loads(l)
+                if "before" not in e:        # fingerprinted huge case
+                    nontrivial.add(hash(l))
+                    continue
                 insts = e["before"]["inst"]
                 types = {p[1]["t"] for x in insts for p in x["props"]}
                 if len(insts) >= 2 or types & {"Ref", "SharedString", "String", "Float32", "CFrame"}:
